@@ -30,8 +30,9 @@ type obs struct {
 }
 
 type runOpt struct {
-	reopenPct   int  // percent chance to restart the node after a step
-	headerVotes bool // deliver some votes inside block headers, plus forged header signatures
+	reopenPct   int          // percent chance to restart the node after a step
+	reopenAfter map[int]bool // restart the node after these steps (directed scenarios)
+	headerVotes bool         // deliver some votes inside block headers, plus forged header signatures
 }
 
 type runner struct {
@@ -258,7 +259,7 @@ func (r *runner) run(steps []chainkit.Step, o runOpt, check func(si int, s chain
 				}
 			}
 		}
-		if o.reopenPct > 0 && rng.Intn(100) < o.reopenPct {
+		if (o.reopenPct > 0 && rng.Intn(100) < o.reopenPct) || o.reopenAfter[si] {
 			close(r.stop)
 			nd2, rerr := r.net.Reopen(r.nd, r.g)
 			if rerr != nil {
